@@ -51,7 +51,7 @@ def base(rnd, sid, entry=None, in_shape=None, out_shape=None, threads=None,
                   "drop_out": rnd.choice([0, 3, 30]), "drop_in": rnd.choice([0, 2, 20])},
         "input_counters": sorted(rnd.sample([0, 1, 2, 3], rnd.choice([0, 0, 1, 2]))) if has_inputs else [],
         "alloc_script": rand_alloc_script(rnd),
-        "panic": None,
+        "panic": {"where": "none", "tid": -1, "nth": 0},
         "schedule": rand_schedule(rnd),
     }
     return sc
